@@ -115,37 +115,37 @@ func VerifH_C05_unmarshal() {
 		var e c05Elem
 		switch kind {
 		case 0:
-			m := &Node{ID: NodeID(i + 1), Version: 1}
+			m := &Node{ID: NodeID(vInt64("id")), Version: 1}
 			e = c05Elem{"node", m}
 			if badAt < 0 {
 				want.Nodes = append(want.Nodes, m)
 			}
 		case 1:
-			m := &Way{ID: WayID(i + 1), Version: 1}
+			m := &Way{ID: WayID(vInt64("id")), Version: 1}
 			e = c05Elem{"way", m}
 			if badAt < 0 {
 				want.Ways = append(want.Ways, m)
 			}
 		case 2:
-			m := &Relation{ID: RelationID(i + 1), Version: 1}
+			m := &Relation{ID: RelationID(vInt64("id")), Version: 1}
 			e = c05Elem{"relation", m}
 			if badAt < 0 {
 				want.Relations = append(want.Relations, m)
 			}
 		case 3:
-			m := &Changeset{ID: ChangesetID(i + 1)}
+			m := &Changeset{ID: ChangesetID(vInt64("id"))}
 			e = c05Elem{"changeset", m}
 			if badAt < 0 {
 				want.Changesets = append(want.Changesets, m)
 			}
 		case 4:
-			m := &Note{ID: NoteID(i + 1)}
+			m := &Note{ID: NoteID(vInt64("id"))}
 			e = c05Elem{"note", m}
 			if badAt < 0 {
 				want.Notes = append(want.Notes, m)
 			}
 		case 5:
-			m := &User{ID: UserID(i + 1)}
+			m := &User{ID: UserID(vInt64("id"))}
 			e = c05Elem{"user", m}
 			if badAt < 0 {
 				want.Users = append(want.Users, m)
